@@ -791,7 +791,8 @@ class SingleQubitCliffordGate(CliffordGate):
         return True
 
     def _unitary_(self) -> np.ndarray:
-        return self._unitary
+        # A copy: the memoised matrix must not be handed out by reference.
+        return self._unitary.copy()
 
     @functools.cached_property
     def _unitary(self) -> np.ndarray:
